@@ -63,7 +63,7 @@ package handler
 //@   ensures[C13] forall g {fopen[g]} :: fopen[g] ==> old(fopen[g]) @nothing-opened
 
 //@ func Handler.HandleOpenFile results(fi, err)
-//@   tags C04,C05,C13,C17,C02,C01
+//@   tags C04,C05,C13,C17,C02,C01,C03
 //@   requires confined(path) @path-confined
 //@   requires h != nil && h.Fs != nil && ctx != nil
 //@   modifies ctx.State.ROFile, ctx.State.CDSectorSize, fopen, fpos, iofaults
@@ -194,6 +194,7 @@ package handler
 // (targets "handler.Handler.HandleX@server.Handler.HandleX").
 
 //@ pred writeAllowed(h *Handler) := h.AllowWrite
+//@ pred noReadFile(ctx *Context) := ctx.State.ROFile == nil
 //@ pred handlerInv(h *Handler, ctx *Context) := h != nil && h.Fs != nil && h.Copier != nil && wfState(ctx) && filesNotWire(ctx)
 //@ pred filesNotWire(ctx *Context) := (ctx.State.WOFile != nil ==> wsink(ctx.State.WOFile) == ctx.State.WOFile && ctx.State.WOFile != ctx.rd.Reader) && (ctx.State.ROFile != nil ==> ctx.State.ROFile != ctx.rd.Reader) && (ctx.State.CwdHandle != nil ==> ctx.State.CwdHandle != ctx.rd.Reader)
 
